@@ -252,6 +252,7 @@ def run(rep, facts, tier):
     # ------------------------------------------------------------ R09.5 content-dependent panics on the read path
     rule_09_5(rep, fx, eps)
     rule_09_6(rep, fx)
+    rule_09_7(rep, fx)
 
 
 # hazard key -> (class, reason); sites on the pinned tree, each read and judged
@@ -339,3 +340,28 @@ def rule_09_6(rep, fx):
             rep.check(ok, 'R09.6', '%s/pull#%d' % (b.key, n), 'each pulled change is handed to the sample cache before the next pull / return',
                       '%s can pull a change out of the receive cache and return (or pull again) without storing it in the sample cache: the change is consumed but never delivered' % b.key, b.where(pb))
     rep.floor('R09.6', n, 1, 'places where a DataReader pulls changes from its SimpleDataReader')
+
+
+TRUNCATING = ('map_while', 'take_while', 'take', 'scan', 'skip_while', 'step_by', 'nth', 'find', 'find_map', 'position', 'try_for_each', 'try_fold')
+
+
+def rule_09_7(rep, fx):
+    """A dispose (or any change that does not unwrap to a value) in a batch is skipped, it does not end the batch."""
+    rep.rule('R09.7', 'iterator forms do not stop at a change they cannot unwrap: the iterators returned by the no_key DataReader (iterator, conditional_iterator, into_iterator, '
+                      'into_conditional_iterator) and by the with_key bare iterators are built from selecting / mapping adaptors only; a truncating adaptor (map_while, take_while, '
+                      'scan, ...) would drop every sample behind the first dispose of the batch')
+    n = 0
+    for b in fx.bodies:
+        if b.kind not in ('fn', 'assoc_fn') or not b.key.startswith(('dds::no_key::datareader::DataReader::', 'dds::with_key::datareader::DataReader::')):
+            continue
+        if b.name not in ('iterator', 'conditional_iterator', 'into_iterator', 'into_conditional_iterator'):
+            continue
+        n += 1
+        rep.analysed(b)
+        bad = sorted(set(callee_res(t).rsplit('::', 1)[-1] for _bb, t in b.calls() if ('Iterator' in callee_res(t) or 'iter::' in callee_res(t)) and callee_res(t).rsplit('::', 1)[-1] in TRUNCATING))
+        for c in fx.closures_of(b):
+            bad += sorted(set(callee_res(t).rsplit('::', 1)[-1] for _bb, t in c.calls() if ('Iterator' in callee_res(t) or 'iter::' in callee_res(t)) and callee_res(t).rsplit('::', 1)[-1] in TRUNCATING))
+        rep.check(not bad, 'R09.7', '%s::%s' % ('no_key' if 'no_key' in b.key else 'with_key', b.name), 'no truncating adaptor',
+                  '%s builds its iterator with %s: the batch ends at the first change that does not unwrap to a value (e.g. a dispose on a NO_KEY topic); for the into_* forms the rest '
+                  'of the batch is already removed from the cache and is lost' % (b.key, ', '.join(bad)), b.where())
+    rep.floor('R09.7', n, 8, 'iterator forms of the with_key and no_key DataReader')
